@@ -60,14 +60,19 @@ CLAIMS["C18"] = ("Config::get_pg_config (real body, extracted) against a setter/
             "user/dbname count as unset, DbnameMissing / DbnameEmpty / InvalidUrl exactly; the four enum conversions are checked against their expected mapping; panic freedom; get_pool_config passes the pool section through.",
             "DESIGN.md 5/C18", "tokio_postgres::Config is a trusted model (URL parsing is an uninterpreted function); create_pool/builder/get_manager_config are not extracted (TLS generics, derive(Clone)); the environment variable USER is arbitrary. ")
 
+CLAIMS["C17"] = ("redis Manager::recycle (real body, extracted; the builder chain of redis::Pipeline modelled with prophecy-style &mut Self contracts): the pipeline sent is exactly [UNWATCH (reply ignored), PING <n>] with "
+            "n the decimal of the pre-increment ping_number, ping_number is used once, Ok iff the echo equals n, an error reply is reported as Backend error, any other echo is rejected, cancellation unwinds.",
+            "DESIGN.md 5/C17", "What UNWATCH does on the server and that a rejected connection is discarded and replaced (that is C04's contract of try_recycle in unit mg) are outside this unit; Connection::take is a one-line forward to Object::take and is not extracted; freshness of n holds until the counter wraps (A8). ")
+CLAIMS["C19"] = ("redis Config::builder (real body): both url and connection => UrlAndConnectionSpecified, neither => the default local server, otherwise exactly the named server, bad parameters => ConfigError::Redis, pool section passed through; "
+            "the six From conversions between deadpool's and the redis crate's ConnectionAddr / RedisConnectionInfo / ConnectionInfo (type definitions extracted from the registry source) are checked field-wise against their expected mapping, with the round-trip lemmas proved.",
+            "DESIGN.md 5/C19", "NOT covered: the cluster and sentinel flavours (iterator adapters / vec! in their builder), and the serde round trip of PoolConfig/Timeouts/QueueMode (code generated by derive macros: no function of /repo to put under contract). URL parsing is inside redis::Client::open (arbitrary result). ")
+
 NOT_APPLICABLE = {
     "C14": "thread placement, ordering of a destructor after a still-running cancelled closure, and mutex poisoning are not expressible as contracts: Verus has no notion of OS-thread identity, unwinding or poisoning, Kani has no threads; a syntactic scope fact would misrepresent the property (DESIGN.md 5/C14)",
 }
 PENDING = {
     "C15": "check not built yet (sync/sqlite/r2d2/diesel manager recycle contracts are next in the build order, DESIGN.md section 11)",
     "C16": "check not built yet (postgres manager / statement cache unit is next in the build order)",
-    "C17": "check not built yet (redis manager unit is next in the build order)",
-    "C19": "check not built yet (redis config units are next in the build order)",
 }
 
 def main():
